@@ -13,7 +13,9 @@ From Coq Require Import List NArith Bool Arith.
 From Verif Require Import Base.Hex Base.VarInt Base.Verdict Model.PlayQueue.
 Import ListNotations.
 
-Inductive crash := CrNone | CrQueue | CrOther | CrHang.
+(* CrQueue: the process died with the packet queue on the panicking stack; CrHangQueue: it hung with a
+   goroutine spinning inside the packet queue; CrOther / CrHang: died / hung anywhere else *)
+Inductive crash := CrNone | CrQueue | CrHangQueue | CrOther | CrHang.
 
 Inductive case :=
 | Seq (ids : idtab) (ops : list op)
@@ -281,7 +283,7 @@ Definition impl_allows (ids : idtab) (pss : list (list pkt)) (ress : list (list 
            (w : bytes) (closed : bool) (cr : crash) (rq ro : N) : bool :=
   (ro =? 0)%N &&
   match cr with
-  | CrQueue => true
+  | CrQueue | CrHangQueue => true
   | CrNone =>
       match parse_wire ids w with
       | Some fs =>
